@@ -21,7 +21,7 @@ RULE = ("a case is a schema over all persistent families (containers of encoded 
         "modulo the two stated normalisations, and the default key file must stay untouched; out-of-domain (state, "
         "format) pairs are skipped and counted; non-trivial = state with >= 3 set values reloaded in >= 2 formats; "
         "distinct = distinct (schema, state)")
-REQUIRED = ("roundtrips:json", "roundtrips:yaml", "roundtrips:bson", "roundtrips:xml", "roundtrips:pickle",
+REQUIRED = ("nested_encoded_containers", "roundtrips:json", "roundtrips:yaml", "roundtrips:bson", "roundtrips:xml", "roundtrips:pickle",
             "tree_plainness_checks", "virtual_key_checks", "states_validated", "list_of_config_states",
             "encoded_item_containers")
 ASSUMPTIONS = ["equality is judged on the plain image of the configurations (values at every depth), not on object identity",
@@ -40,7 +40,18 @@ def generate(rng, ctx):
     enc = rng.choice(["bytes", "challenge", "secure", "bytes"])
     item = {"kind": "field", "family": enc, "params": gen.gen_params(rng, enc)}
     item["params"].pop("required", None)
-    if rng.random() < 0.5:
+    nest = rng.random()
+    if nest < 0.25:
+        # containers of containers: list of lists / list of dicts / dict of lists of encoded items
+        inner = rng.choice([
+            {"kind": "field", "family": "list", "params": {}, "item": item},
+            {"kind": "field", "family": "dict", "params": {}, "keyf": {"kind": "field", "family": "str", "params": {}}, "valf": item}])
+        if rng.random() < 0.6:
+            schema["fields"].append({"kind": "field", "key": "enc_l", "family": "list", "params": {}, "item": inner})
+        else:
+            schema["fields"].append({"kind": "field", "key": "enc_d", "family": "dict", "params": {},
+                                     "keyf": {"kind": "field", "family": "str", "params": {}}, "valf": inner})
+    elif rng.random() < 0.5:
         schema["fields"].append({"kind": "field", "key": "enc_l", "family": "list", "params": {}, "item": item})
     else:
         schema["fields"].append({"kind": "field", "key": "enc_d", "family": "dict", "params": {},
@@ -119,6 +130,11 @@ def run(case, ctx, res):
         res.count("list_of_config_states")
     if any(k in state and state[k] for k in ("enc_l", "enc_d")):
         res.count("encoded_item_containers")
+        for k in ("enc_l", "enc_d"):
+            v = state.get(k)
+            vals = list(v.values()) if isinstance(v, dict) else (v or [])
+            if any(isinstance(x, (list, dict)) and x for x in vals):
+                res.count("nested_encoded_containers")
     # ---- the tree
     try:
         tree = cfg.to_tree()
